@@ -166,6 +166,15 @@ func (c C11) runSubscriptions(t *tape.Tape, opt core.RunOpt) (res core.Result) {
 		return
 	}
 	printed0 := printedBlocks(exe)
+	// the caller gives the kept document its context once (its resolvers read
+	// it while events are applied to the selection sets); a fresh parse gets the
+	// same
+	withCtx := t.Bool(1, 2)
+	if withCtx {
+		wa.ResolverEvents, wb.ResolverEvents = true, true
+		exe.SetContextRecursive("kept")
+		res.Count("probe_subscription_document_with_context", 1)
+	}
 	n := 2 + t.Draw(3)
 	for sid := 1; sid <= n; sid++ {
 		if sid > 1 && t.Bool(1, 3) {
@@ -177,6 +186,9 @@ func (c C11) runSubscriptions(t *tape.Tape, opt core.RunOpt) (res core.Result) {
 			if ferr != nil {
 				res.Fatal = ferr.Error()
 				return
+			}
+			if withCtx {
+				fr.SetContextRecursive("kept")
 			}
 			_, rb := wb.Root.ResolveExecutable(fr, op, map[string]interface{}{"sid": 99})
 			hist = append(hist, fmt.Sprintf("refused attempt (unknown subscriber 99) -> err=%v (fresh parse: err=%v)", ra != nil, rb != nil))
@@ -214,6 +226,9 @@ func (c C11) runSubscriptions(t *tape.Tape, opt core.RunOpt) (res core.Result) {
 			res.Fatal = ferr.Error()
 			return
 		}
+		if withCtx {
+			fresh.SetContextRecursive("kept")
+		}
 		_, eb := wb.Root.ResolveExecutable(fresh, op, map[string]interface{}{"sid": sid})
 		res.Evaluations += 2
 		hist = append(hist, fmt.Sprintf("resolve #%d with sid=%d -> err=%v (fresh parse: err=%v)", sid, sid, ea, eb))
@@ -235,6 +250,9 @@ func (c C11) runSubscriptions(t *tape.Tape, opt core.RunOpt) (res core.Result) {
 			if ferr != nil {
 				res.Fatal = ferr.Error()
 				return
+			}
+			if withCtx {
+				fr.SetContextRecursive("kept")
 			}
 			_, rb := wb.Root.ResolveExecutable(fr, op, map[string]interface{}{"sid": rs})
 			hist = append(hist, fmt.Sprintf("subscriber %d subscribes once more -> err=%v (fresh parse: err=%v)", rs, ra, rb))
